@@ -46,7 +46,8 @@ ASSUMPTIONS = [
     'a companion is called with the forward routine\'s own parameters (dx, efl, wavelength, Q, shift, mask, Lyot stop), the upstream gradient in place of the field and the shape of the forward INPUT as its sample-count argument',
     'focal-plane masks and Lyot stops are ndarrays (Wavefront-valued masks already fail in the forward routines: "complex * Wavefront", "1 - Wavefront")',
     'DM: square influence function and square Nout, rot = (0,0,0) (rotation excluded from the exactness claim), real upstream gradient (documented), actuator lattice inside the array as prysm places it',
-    'sum_of_2d_modes: real modes with real weights / upstream gradients, complex modes with complex ones',
+    'sum_of_2d_modes: every combination of modes / weights / upstream-gradient number field (real, complex, integer; double and single precision) that the forward routine answers correctly; with REAL weights only the real part of the companion output is the gradient (the imaginary part is not judged)',
+    'complex-linear companions (mdft, fixed-sampling wrappers, to_fpm_and_back, babinet): an upstream gradient given as a REAL-dtype array is the same gradient as its complex copy',
 ]
 
 
@@ -180,7 +181,26 @@ def adjoint_check(R, f, b, shape_in, shape_out, seed, salt, sig, what, eps=None,
     ok = judge_adjoint(R, AR, BR, tol, sig, what)
     if ok and dense_too:
         dense_pair_check(R, f, b, shape_in, shape_out, seed, salt, tol, sig, cplx)
+    if ok and cplx and dtype is None:
+        real_upstream_check(R, b, shape_out, seed, salt + 2, tol, sig, what)
     return ok
+
+
+def real_upstream_check(R, b, shape_out, seed, salt, tol, sig, what):
+    """Number field of the operand: an upstream gradient given as a REAL-dtype array (float64) is the same gradient as
+    its complex copy, whose answer the full-basis comparison has just judged (the bases are complex-dtype arrays)."""
+    yr = dense(shape_out, seed, salt, complex_=False)
+    got = R.call(b, yr.copy(), sig=sig + ':exception', hygiene=False)            # (hygiene variants run on the explicit calls of each unit)
+    ref = R.call(b, yr.astype(complex), sig=sig + ':exception', hygiene=False)
+    if got is FAILED or ref is FAILED:
+        return
+    try:
+        mag = float(np.max(np.abs(np.asarray(ref)))) if np.size(ref) else 0.0
+        mag = mag if np.isfinite(mag) else 1.0
+    except Exception:   # noqa
+        mag = 1.0
+    R.expect_close(got, ref, 10 * tol * max(1.0, mag, float(np.sum(np.abs(yr)))), sig + ':real-upstream',
+                   f'{what}: companion of a float64 upstream gradient differs from the companion of its complex copy')
 
 
 # ---------------------------------------------------------------------------------------------
@@ -368,6 +388,111 @@ def run_modes(case, seed, R):
     R.call(polynomials.sum_of_2d_modes_backprop, marg(), g, sig=sig + ':exception')      # modes and gradient explicit (call hygiene)
     R.nontrivial(True)
     R.outcome(f'modes:{kind}')
+
+
+# 5b. modal sums: operand number fields (modes x weights x upstream gradient)
+
+OPERAND_DT = {'f64': np.float64, 'f32': np.float32, 'c128': np.complex128, 'c64': np.complex64, 'i64': np.int64}
+MODE_KINDS = ('real', 'complex', 'float32', 'complex64', 'int', 'bool')
+
+
+def mk_modes(kind, shape, seed):
+    a = dense(shape, seed, 29, complex_=kind in ('complex', 'complex64'))
+    if kind == 'float32':
+        return a.astype(np.float32)
+    if kind == 'complex64':
+        return a.astype(np.complex64)
+    if kind == 'int':
+        return np.rint(3 * a).astype(np.int64) + 1      # generic small integers, not all zero
+    if kind == 'bool':
+        return a > 0.3
+    return a
+
+
+def mk_operand(shape, seed, salt, dt):
+    dt = np.dtype(dt)
+    a = dense(shape, seed, salt, complex_=dt.kind == 'c')
+    if dt.kind == 'i':
+        return np.rint(3 * a).astype(dt) + 2
+    return a.astype(dt)
+
+
+def field_of(dt):
+    return {'f': 'real', 'c': 'complex', 'i': 'int'}[np.dtype(dt).kind]
+
+
+def field_matrix(R, f, shape_in, dt, sig):
+    """Real matrix of the real-linear map f on arrays of dtype dt: columns f(delta) for every sample and, for a complex dt,
+    f(i delta); rows (Re out, Im out) -- the Im rows are zero for a real output.  (M, shape_out) or (None, None)."""
+    blocks, so = [], None
+    for mult in ((1, 1j) if np.dtype(dt).kind == 'c' else (1,)):
+        M, s = _columns(R, f, shape_in, mult, dt, sig)
+        if M is None:
+            return None, None
+        if so is not None and s != so:
+            R.violation(sig + ':output', f'output shape differs between delta and i*delta: {so} vs {s}')
+            return None, None
+        so = s
+        blocks.append(M)
+    C = np.concatenate(blocks, axis=1)
+    return np.concatenate([C.real, C.imag if np.iscomplexobj(C) else np.zeros_like(C.real)], axis=0), so
+
+
+def run_modes_ops(case, seed, R):
+    """<y, A w> = <A^H y, w> over the reals for every number field of (modes, weights w, upstream gradient y).
+    A_R: R^(k or 2k) -> R^(2mn) from the forward on the full weight basis; B_R from the companion on the full basis of
+    upstream gradients of dtype y.  Judged block: rows = the weight components that exist (Re, and Im for complex weights),
+    columns = the upstream components that exist (Re, and Im for a complex upstream gradient)."""
+    k, m, n, kind, form = case['k'], case['m'], case['n'], case['kind'], case['form']
+    wdt, ydt = OPERAND_DT[case['w']], OPERAND_DT[case['y']]
+    wc, yc = np.dtype(wdt).kind == 'c', np.dtype(ydt).kind == 'c'
+    modes = mk_modes(kind, (k, m, n), seed)
+    marg = (lambda: [mm.copy() for mm in modes]) if form == 'list' else (lambda: modes.copy())   # noqa
+    sig = f'sum_of_2d_modes_backprop:operands:{kind}-modes:{field_of(wdt)}-weights:{field_of(ydt)}-upstream'
+    what = f'sum_of_2d_modes k={k} modes of shape {(m, n)} ({kind} {modes.dtype}, {form}), weights {np.dtype(wdt)}, upstream gradient {np.dtype(ydt)}'
+    f = lambda w: polynomials.sum_of_2d_modes(marg(), w)             # noqa
+    b = lambda g: polynomials.sum_of_2d_modes_backprop(marg(), g)    # noqa
+    single = any(np.dtype(d) in (np.dtype(np.float32), np.dtype(np.complex64)) for d in (modes.dtype, wdt, ydt))
+    eps = np.finfo(np.float32).eps if single else np.finfo(float).eps
+    R.nontrivial(True)
+    R.outcome(f'modes-ops:{kind}:{field_of(wdt)}-weights:{field_of(ydt)}-upstream')
+    AR, so = field_matrix(R, f, (k,), wdt, sig + ':forward')
+    if AR is None:
+        return
+    if tuple(so) != (m, n):
+        R.violation(sig + ':forward', f'{what}: forward output shape {so}, expected {(m, n)}')
+        return
+    BR, si = field_matrix(R, b, (m, n), ydt, sig)
+    if BR is None:
+        return
+    if tuple(si) != (k,):
+        R.violation(sig, f'{what}: companion returns shape {si}; the weights have shape {(k,)}')
+        return
+    mn = m * n
+    AR = AR if yc else AR[:mn]               # real upstream gradient: dJ/dIm(data) = 0, only the Re rows of the forward matter
+    BR = BR if wc else BR[:k]                # real weights: the gradient is the real part of the companion output
+    scale = max(1.0, float(np.max(np.abs(AR))) if AR.size else 1.0)
+    tol = K_TOL * eps * scale
+    if not judge_adjoint(R, AR, BR, tol, sig, what):
+        return
+    # dense pair (guards linearity) + the call with modes and gradient explicit (call hygiene)
+    x, y = mk_operand((k,), seed, 35, wdt), mk_operand((m, n), seed, 36, ydt)
+    fx = R.call(polynomials.sum_of_2d_modes, marg(), x.copy(), sig=sig + ':exception')
+    by = R.call(polynomials.sum_of_2d_modes_backprop, marg(), y.copy(), sig=sig + ':exception')
+    if fx is FAILED or by is FAILED:
+        return
+    try:
+        fx, by = np.asarray(fx), np.asarray(by)
+        ok = fx.shape == (m, n) and by.shape == (k,)
+        lhs, rhs = (rdot(y, fx), rdot(by, x)) if ok else (0.0, 0.0)
+    except Exception as e:   # noqa
+        R.violation(sig + ':dense', f'uncomparable output: {type(e).__name__}: {e}')
+        return
+    if not ok:
+        R.violation(sig + ':dense', f'dense pair: shapes {fx.shape}, {by.shape} instead of {(m, n)}, {(k,)}')
+        return
+    nrm = float(np.linalg.norm(x) * np.linalg.norm(y)) * scale
+    R.expect(abs(lhs - rhs) <= tol * max(1.0, nrm) * 10, sig + ':dense', f'{what}: dense pair Re<y, f(x)> = {lhs:.12g} but Re<b(y), x> = {rhs:.12g}')
 
 
 # ---------------------------------------------------------------------------------------------
@@ -588,6 +713,11 @@ def units(tier, seed):
     mode_cases = [{'k': k, 'm': m, 'n': n, 'kind': kind, 'form': form}
                   for k in range(1, Bm + 1) for m in range(1, Bm + 1) for n in range(1, Bm + 1)
                   for kind in ('real', 'complex', 'float32') for form in ('array', 'list')]
+    Bo = 3 if quick else 4
+    mode_ops_cases = [{'k': k, 'm': m, 'n': n, 'kind': kind, 'form': form, 'w': w, 'y': y}
+                      for k in range(1, Bo + 1) for m in range(1, Bo + 1) for n in range(1, Bo + 1)
+                      for kind in MODE_KINDS for form in ('array', 'list') for w in OPERAND_DT for y in OPERAND_DT
+                      if not quick or form == 'array' or (w in ('f64', 'c128') and y in ('f64', 'c128'))]
     # --- spatial gradient
     Bs = 7 if quick else 10
     sg_cases = [{'m': m, 'n': n} for m in range(1, Bs + 1) for n in range(1, Bs + 1)]
@@ -632,7 +762,8 @@ def units(tier, seed):
                 large_cases.append({'in': sh_, 'out': so, 'Q': Q, 'shift': shift})
     shapes_txt = f'pupil shapes [{lo}..{hi}]^2 (square and non-square) x focal/mask shapes [{foc[0][0]}..{hi + 1}]^2 (smaller, equal, larger, non-square)'
     orc = ('oracle: forward operator A_R and companion operator B_R read off the FULL bases (delta and i*delta of every sample, '
-           'i.e. over R^(2n)); B_R = A_R^T entry-wise (== B = A^H), plus <y,f(x)> = <b(y),x> for one seeded dense pair')
+           'i.e. over R^(2n)); B_R = A_R^T entry-wise (== B = A^H), plus <y,f(x)> = <b(y),x> for one seeded dense pair, plus operand number field: '
+           'the companion of one seeded float64 (real-dtype) upstream gradient == the companion of its complex copy')
     return [
         ScopeUnit('lin_mdft', mdft_cases, run_mdft,
                   f'{shapes_txt} x the Q alphabet of C01 {{1, 2, 2.0, 1.5, 0.75, (1,2), (2.5,1.25), [2,1.5]}} x the shift alphabet of C01 {{(0,0), 0, (1,0), (0,-2), (0.5,1.25), seeded generic}}'
@@ -650,6 +781,13 @@ def units(tier, seed):
         ScopeUnit('lin_modes', mode_cases, run_modes,
                   f'every (k, m, n) in [1..{Bm}]^3 (all coincidences k=m, k=n, m=n, k=m=n) x modes in {{real float64, complex, float32}} x modes given as {{ndarray, list of arrays}}: '
                   'sum_of_2d_modes / sum_of_2d_modes_backprop; real modes over real weights, complex modes over complex weights; ' + orc, reset=rs),
+        ScopeUnit('lin_modes_ops', mode_ops_cases, run_modes_ops,
+                  f'OPERAND NUMBER FIELDS: every (k, m, n) in [1..{Bo}]^3 (all coincidences) x modes in {{{", ".join(MODE_KINDS)}}} x modes given as {{ndarray, list of arrays}} x '
+                  f'weights dtype in {{{", ".join(OPERAND_DT)}}} x upstream-gradient dtype in {{{", ".join(OPERAND_DT)}}} (full 5 x 5 product' + (' for the ndarray form, {f64, c128}^2 for the list form' if quick else '') + ': real modes with complex weights and complex upstream gradient, '
+                  'complex modes with real weights, real upstream gradient of complex data, integer operands, mixed precisions; every cell answered correctly by the unchanged forward routine): '
+                  'forward operator A_R read off the full weight basis (delta, and i*delta for complex weights; rows Re and Im of the data), companion operator B_R off the full basis of upstream gradients of '
+                  'that dtype (delta, and i*delta when complex); B_R = A_R^T entry-wise on the block (weight components that exist) x (upstream components that exist) -- with real weights only Re of the '
+                  'companion output is judged; plus Re<y,f(x)> = Re<b(y),x> for one seeded dense pair of those dtypes, called with modes and operands explicit (call hygiene)', reset=rs),
         ScopeUnit('lin_spgrad', sg_cases, run_spgrad,
                   f'every array shape in [1..{Bs}]^2: SpatialGradient2D forward_x/backprop_x, forward_y/backprop_y operator matrices, exact (integer) comparison B = A^T, '
                   'dense complex pair, and forward_y == forward_x along axis 0; non-trivial when an axis has an interior sample', reset=rs),
